@@ -286,7 +286,65 @@ def gen_c12(rng):
     return ps.ops
 
 
+def gen_c12_inner(rng):
+    """Inner nodes that hold a value but lost their children (insert a chain, delete its deepest keys),
+    then watches on those keys, their prefixes and absent extensions, then delete / re-extend them."""
+    ps = PartScript(rng)
+    b = rng.choice([5, 97, 0, 255])
+    chain = [[b] * n for n in range(1, rng.randint(3, 5))]
+    side = [[b + 1 if b < 255 else 1], [b, (b + 1) % 256]]
+    keys = chain + side + [[]]
+    t0 = ps.new_tree_id()
+    ps.add(op="new", t=t0, ro=rng.random() < 0.15)
+    head = t0
+
+    def txn(writes):
+        nonlocal head
+        x = ps.new_txn_id()
+        ps.add(op="begin", x=x, t=head, lin=True)
+        for (kind, k) in writes:
+            if kind == "i":
+                ps.add(op="insert", x=x, k=k, v=rng.randint(1, 9), w=ps.new_chan_id() if rng.random() < 0.3 else 0)
+            else:
+                ps.add(op="delete", x=x, k=k)
+        nt = ps.new_tree_id()
+        if rng.random() < 0.5:
+            ps.add(op="commitnotify", x=x, t=nt)
+        else:
+            ps.add(op="commit", x=x, t=nt)
+            ps.add(op="notify", x=x)
+        head = nt
+
+    def watches():
+        for k in rng.sample(keys, rng.randint(2, len(keys))):
+            ps.add(op="get", s=tree_src(head), k=k, w=ps.new_chan_id())
+            f = ps.new_iter_id()
+            ps.add(op="prefix", s=tree_src(head), k=k, f=f, w=ps.new_chan_id())
+        for k in chain[-2:]:
+            ps.add(op="get", s=tree_src(head), k=k + [rng.choice([1, 122])], w=ps.new_chan_id())
+        ps.add(op="rootwatch", s=tree_src(head), w=ps.new_chan_id())
+
+    ins = [("i", k) for k in chain] + [("i", k) for k in side if rng.random() < 0.7]
+    rng.shuffle(ins)
+    for i in range(0, len(ins), rng.randint(1, 3)):
+        txn(ins[i:i + 3])
+    # delete the deepest key(s): their parents become childless inner nodes (or get compressed)
+    for k in reversed(chain[-rng.randint(1, 2):]):
+        watches()
+        txn([("d", k)])
+    # now change what is left, one key per transaction
+    rest = [k for k in chain if True]
+    rng.shuffle(rest)
+    for k in rest[:rng.randint(1, len(rest))]:
+        watches()
+        txn([(rng.choice(["d", "d", "i"]), k)])
+    watches()
+    txn([("i", chain[-1] + [7])])
+    ps.add(op="chans")
+    return ps.ops
+
+
 def generate(kind, n, seed):
     rng = random.Random(seed)
-    fn = {"c11": gen_c11, "c12": gen_c12}[kind]
+    fn = {"c11": gen_c11, "c12": gen_c12, "c12inner": gen_c12_inner}[kind]
     return [fn(rng) for _ in range(n)]
